@@ -1,0 +1,196 @@
+//go:build verif
+
+package consensus
+
+// Entry points for the external verification harness (build tag "verif").
+//
+// They let a single scheduler goroutine drive a State that was never
+// Start()ed: each function mirrors exactly one arm of receiveRoutine (WAL
+// write, then handleMsg / handleTimeout), so the transition function that runs
+// is the production one; only message transport and time are replaced.
+
+import (
+	"fmt"
+	"sync"
+	"time"
+
+	cstypes "github.com/tendermint/tendermint/consensus/types"
+	"github.com/tendermint/tendermint/libs/log"
+	"github.com/tendermint/tendermint/p2p"
+	"github.com/tendermint/tendermint/types"
+)
+
+// VerifTimeout is the exported view of a scheduled timeout.
+type VerifTimeout struct {
+	Duration time.Duration
+	Height   int64
+	Round    int32
+	Step     cstypes.RoundStepType
+}
+
+// VerifTicker is a TimeoutTicker that records the scheduled timeout instead of
+// sleeping.  It applies the same "ignore ticks for an older height/round/step"
+// rule as timeoutTicker.timeoutRoutine.
+type VerifTicker struct {
+	mtx     sync.Mutex
+	last    timeoutInfo // last accepted tick (fired or not)
+	pending bool
+	ch      chan timeoutInfo
+	nSched  int
+}
+
+func NewVerifTicker() *VerifTicker { return &VerifTicker{ch: make(chan timeoutInfo)} }
+
+func (t *VerifTicker) Start() error             { return nil }
+func (t *VerifTicker) Stop() error              { return nil }
+func (t *VerifTicker) Chan() <-chan timeoutInfo { return t.ch }
+func (t *VerifTicker) SetLogger(log.Logger)     {}
+
+func (t *VerifTicker) ScheduleTimeout(newti timeoutInfo) {
+	t.mtx.Lock()
+	defer t.mtx.Unlock()
+	ti := t.last
+	if newti.Height < ti.Height {
+		return
+	} else if newti.Height == ti.Height {
+		if newti.Round < ti.Round {
+			return
+		} else if newti.Round == ti.Round {
+			if ti.Step > 0 && newti.Step <= ti.Step {
+				return
+			}
+		}
+	}
+	t.last = newti
+	t.pending = true
+	t.nSched++
+}
+
+// Pending returns the timeout that a real ticker would currently be counting down.
+func (t *VerifTicker) Pending() (VerifTimeout, bool) {
+	t.mtx.Lock()
+	defer t.mtx.Unlock()
+	return VerifTimeout{t.last.Duration, t.last.Height, t.last.Round, t.last.Step}, t.pending
+}
+
+// Scheduled returns how many ticks were accepted so far.
+func (t *VerifTicker) Scheduled() int {
+	t.mtx.Lock()
+	defer t.mtx.Unlock()
+	return t.nSched
+}
+
+func (t *VerifTicker) take() (timeoutInfo, bool) {
+	t.mtx.Lock()
+	defer t.mtx.Unlock()
+	if !t.pending {
+		return timeoutInfo{}, false
+	}
+	t.pending = false
+	return t.last, true
+}
+
+// VerifUseTicker installs a VerifTicker (must be called before any scheduling).
+func (cs *State) VerifUseTicker() *VerifTicker {
+	t := NewVerifTicker()
+	cs.mtx.Lock()
+	cs.timeoutTicker = t
+	cs.mtx.Unlock()
+	return t
+}
+
+// VerifStart does what OnStart does after WAL catch-up, without starting the
+// routines: it schedules round 0.
+func (cs *State) VerifStart() {
+	cs.scheduleRound0(cs.GetRoundState())
+}
+
+// VerifDeliverPeer mirrors the peerMsgQueue arm of receiveRoutine.
+func (cs *State) VerifDeliverPeer(msg Message, peerID p2p.ID) {
+	mi := msgInfo{Msg: msg, PeerID: peerID}
+	if err := cs.wal.Write(mi); err != nil {
+		cs.Logger.Error("failed writing to WAL", "err", err)
+	}
+	cs.handleMsg(mi)
+}
+
+// VerifInternalLen is the number of own messages waiting in the internal queue.
+func (cs *State) VerifInternalLen() int { return len(cs.internalMsgQueue) }
+
+// VerifDeliverInternal mirrors the internalMsgQueue arm of receiveRoutine for
+// one queued message (if any) and returns it so the caller can relay it.
+func (cs *State) VerifDeliverInternal() (Message, bool) {
+	select {
+	case mi := <-cs.internalMsgQueue:
+		if err := cs.wal.WriteSync(mi); err != nil {
+			panic(fmt.Sprintf("failed to write %v msg to consensus WAL due to %v", mi, err))
+		}
+		cs.handleMsg(mi)
+		return mi.Msg, true
+	default:
+		return nil, false
+	}
+}
+
+// VerifFireTimeout mirrors the tockChan arm of receiveRoutine for the pending
+// timeout of the installed VerifTicker.
+func (cs *State) VerifFireTimeout() (VerifTimeout, bool) {
+	t, ok := cs.timeoutTicker.(*VerifTicker)
+	if !ok {
+		return VerifTimeout{}, false
+	}
+	ti, ok := t.take()
+	if !ok {
+		return VerifTimeout{}, false
+	}
+	if err := cs.wal.Write(ti); err != nil {
+		cs.Logger.Error("failed writing to WAL", "err", err)
+	}
+	cs.handleTimeout(ti, cs.RoundState)
+	return VerifTimeout{ti.Duration, ti.Height, ti.Round, ti.Step}, true
+}
+
+// VerifDrainStats empties statsMsgQueue (normally drained by the reactor).
+func (cs *State) VerifDrainStats() int {
+	n := 0
+	for {
+		select {
+		case <-cs.statsMsgQueue:
+			n++
+		default:
+			return n
+		}
+	}
+}
+
+// VerifSetWAL installs a WAL (like SetWAL in tests).
+func (cs *State) VerifSetWAL(w WAL) { cs.wal = w }
+
+// VerifCatchupReplay runs the production catchupReplay for a height.
+func (cs *State) VerifCatchupReplay(height int64) error { return cs.catchupReplay(height) }
+
+// VerifSetByzantine overrides the proposal / prevote decision functions (nil keeps the default).
+func (cs *State) VerifSetByzantine(decideProposal, doPrevote func(height int64, round int32)) {
+	cs.mtx.Lock()
+	defer cs.mtx.Unlock()
+	if decideProposal != nil {
+		cs.decideProposal = decideProposal
+	}
+	if doPrevote != nil {
+		cs.doPrevote = doPrevote
+	}
+}
+
+// VerifVotes returns the height vote set (read under the state lock).
+func (cs *State) VerifVotes() *cstypes.HeightVoteSet {
+	cs.mtx.RLock()
+	defer cs.mtx.RUnlock()
+	return cs.Votes
+}
+
+// VerifLastCommit returns the LastCommit vote set.
+func (cs *State) VerifLastCommit() *types.VoteSet {
+	cs.mtx.RLock()
+	defer cs.mtx.RUnlock()
+	return cs.LastCommit
+}
